@@ -26,7 +26,7 @@ pub fn draw<R: RecUni>(rng: &mut Rng, ctx: &Ctx) -> ShapeSpec {
         query_pow_bits: *rng.pick(&[0, 3, 8]),
         cap_height: *rng.pick(&[0, 1, 2]),
     };
-    let kind = if rng.chance(2, 3) { "batch" } else { "uni" };
+    let kind = if rng.chance(2, 3) || !R::HAS_UNI { "batch" } else { "uni" };
     let log_n = rng.range(0, ctx.tier.pick(6, 8));
     let program = if kind == "batch" {
         // table heights differ: few constants, 0..many public inputs, 1..many ALU ops
